@@ -267,11 +267,15 @@ func monitorHist(k *HistCase) []c.Hit {
 	return append(hits, verdictHits(recs, k, "limit")...)
 }
 
-func monitorPlugin(k *PluginCase) []c.Hit {
+func monitorPlugin(k *PluginCase) []c.Hit { return monitorPluginSite(k, "plugin", k) }
+
+// the same judgement for any sequence of OnRequest calls given in the order in which
+// they were decided (site = call-site part of the signatures, kase = what is reported)
+func monitorPluginSite(k *PluginCase, site string, kase any) []c.Hit {
 	var recs []rec
 	var hits []c.Hit
 	add := func(sig, dem, obs string) {
-		hits = append(hits, c.Hit{Signature: sig, Demanded: dem, Observed: obs, Case: k})
+		hits = append(hits, c.Hit{Signature: sig + ":" + site, Demanded: dem, Observed: obs, Case: kase})
 	}
 	for i, rq := range k.Reqs {
 		rm := k.Remedies[rq.Remedy]
@@ -297,12 +301,12 @@ func monitorPlugin(k *PluginCase) []c.Hit {
 			continue
 		}
 		if obs < 0 {
-			add("no-verdict:plugin", "a request gets NoOp or the early response",
+			add("no-verdict", "a request gets NoOp or the early response",
 				fmt.Sprintf("request #%d: code %d", i, obs))
 			continue
 		}
 		if obs > 0 && obs != status {
-			add("wrong-status:plugin", fmt.Sprintf("rejections carry the configured status %d", status),
+			add("wrong-status", fmt.Sprintf("rejections carry the configured status %d", status),
 				fmt.Sprintf("request #%d rejected with %d", i, obs))
 			continue
 		}
@@ -343,13 +347,13 @@ func monitorPlugin(k *PluginCase) []c.Hit {
 			switch g.Default {
 			case "allow":
 				if obs != 0 {
-					add("default-behaviour:plugin", "default allow: requests of unlisted groups proceed",
+					add("default-behaviour", "default allow: requests of unlisted groups proceed",
 						fmt.Sprintf("request #%d (value %q) got status %d", i, v, obs))
 				}
 				continue
 			case "block":
 				if obs == 0 {
-					add("default-behaviour:plugin", "default block: requests of unlisted groups are rejected",
+					add("default-behaviour", "default block: requests of unlisted groups are rejected",
 						fmt.Sprintf("request #%d (value %q) proceeded", i, v))
 				}
 				continue
@@ -362,5 +366,5 @@ func monitorPlugin(k *PluginCase) []c.Hit {
 		}
 		recs = append(recs, r)
 	}
-	return append(hits, verdictHits(recs, k, "plugin")...)
+	return append(hits, verdictHits(recs, kase, site)...)
 }
